@@ -136,6 +136,27 @@ Proof.
   eapply at_input_next; eauto.
 Qed.
 
+(* tokens other than ErrorToken never change l.err *)
+Lemma chain_lerr tr : forall l, chain l tr -> Forall (fun r => fst (fst r) <> ErrorT) tr -> lerr (final l tr) = lerr l.
+Proof.
+  induction tr as [|r tr IH]; intros l Hch Hne; [reflexivity|].
+  cbn [chain] in Hch. destruct Hch as [Hs Hch]. inversion Hne as [|? ? Hr Hne']; subst.
+  destruct r as [[ty tk] l1]. cbn [fst snd] in *.
+  assert (Hf : final l ((ty, tk, l1) :: tr) = final l1 tr).
+  { unfold final. cbn [map snd]. destruct (map snd tr) eqn:E; [reflexivity|]. change (last (l1 :: l0 :: l2) l) with (last (l0 :: l2) l).
+    apply last_nondefault. discriminate. }
+  rewrite Hf, (IH l1 Hch Hne'). cbn [step_post] in Hs.
+  destruct Hs as (_ & _ & _ & _ & _ & _ & _ & _ & _ & _ & Hk). apply Hk, Hr.
+Qed.
+
+Lemma lexes_lerr d l pre X rest os l' : lwf l -> lexes d l pre X rest os l' ->
+  Forall (fun o => o_ty o <> ErrorT) os -> lerr l' = lerr l.
+Proof.
+  intros Hl (tr & Hr & Ho & Hf & _) Hne. destruct (run_inv_chain no_tmpl _ l tr cfg_ok_no_tmpl Hl Hr) as [_ Hch].
+  rewrite <- Hf. apply chain_lerr; [exact Hch|]. rewrite <- Ho in Hne. rewrite Forall_map in Hne.
+  eapply Forall_impl; [|exact Hne]. intros [[ty tk] l1] H. exact H.
+Qed.
+
 (* bytes of the input as seen through the buffer before the call *)
 Lemma at_input_view d l pre s a n : at_input d l pre s -> 0 <= a -> 0 <= n -> a + n <= len s ->
   view_bytes (lbuf (lz l)) (mkSl (len pre + a) n) = slice s a (a + n).
@@ -469,7 +490,8 @@ Inductive item :=
 | IDoctype (x0 x1 x2 x3 x4 x5 x6 : Z) (after : list Z)
 | ITag (name : list Z) (attrs : list attr) (ws : list Z) (void : bool)
 | IEnd (name ws : list Z)
-| IRaw (name : list Z) (attrs : list attr) (ws content ename ews : list Z).   (* raw-text element with its content and end tag *)
+| IRaw (name : list Z) (attrs : list attr) (ws content ename ews : list Z)    (* raw-text element with its content and end tag *)
+| IForeign (h : Z) (name inner ename ews : list Z).                          (* svg / math / xml: "<" name inner "</" ename ews ">" *)
 
 Definition item_bytes (i : item) : list Z :=
   match i with
@@ -481,6 +503,7 @@ Definition item_bytes (i : item) : list Z :=
   | IEnd name ws => 60 :: 47 :: name ++ ws ++ [62]
   | IRaw name attrs ws content ename ews =>
       (60 :: name ++ tag_rest attrs ws false) ++ content ++ 60 :: 47 :: ename ++ ews ++ [62]
+  | IForeign h name inner ename ews => 60 :: name ++ inner ++ 60 :: 47 :: ename ++ ews ++ [62]
   end.
 
 (* exactly one token per construct (a tag: one per part), lower-cased names, verbatim values *)
@@ -497,6 +520,8 @@ Definition item_obs (i : item) : list obs :=
   | IRaw name attrs ws content ename ews =>
       tag_obs name attrs false ++
       [mkObs TextT content content []; mkObs EndTagT (map lower (60 :: 47 :: ename ++ ews ++ [62])) (map lower ename) []]
+  | IForeign h name inner ename ews =>
+      [mkObs (foreign_ty h) (60 :: map lower name ++ inner ++ 60 :: 47 :: ename ++ ews ++ [62]) (map lower name) []]
   end.
 
 Definition is_text (i : item) : bool := match i with IText _ => true | _ => false end.
@@ -522,6 +547,11 @@ Definition wf_item (i : item) : Prop :=
       all_ws ws /\ wf_attrs attrs (ws ++ closer false) /\
       content <> [] /\ no_lt_slash content /\
       ename <> [] /\ Forall (fun c => is_letter c = true) ename /\ Forall (fun c => is_ws4 c = true) ews
+  | IForeign h name inner ename ews =>
+      (exists c nm, name = c :: nm /\ is_letter c = true) /\ Forall namechar name /\
+      to_hash (map lower name) = Ok h /\ to_hash (map lower ename) = Ok h /\ is_xml_hash h = true /\   (* svg math xml *)
+      (exists c r, inner = c :: r /\ (is_ws c = true \/ c = 62)) /\ xml_inner inner /\
+      Forall (fun c => is_letter c = true) ename /\ Forall (fun c => is_ws4 c = true) ews
   end.
 
 (* a document: well-formed items, no two texts in a row *)
@@ -625,7 +655,7 @@ Qed.
 
 Lemma nontext_tag_start i rest : wf_item i -> is_text i = false -> tag_start (item_bytes i ++ rest).
 Proof.
-  intros Hwf Ht. destruct i as [t|b|b|x0 x1 x2 x3 x4 x5 x6 after|name attrs ws void|name ws|name attrs ws content ename ews]; cbn [is_text] in Ht; try discriminate;
+  intros Hwf Ht. destruct i as [t|b|b|x0 x1 x2 x3 x4 x5 x6 after|name attrs ws void|name ws|name attrs ws content ename ews|h name inner ename ews]; cbn [is_text] in Ht; try discriminate;
     cbn [item_bytes app wf_item] in *.
   - eexists _, _. split; [reflexivity|tauto].
   - eexists _, _. split; [reflexivity|tauto].
@@ -634,15 +664,26 @@ Proof.
   - destruct Hwf as ((c & nm & -> & Hl) & _). cbn [app]. eexists _, _. split; [reflexivity|].
     right; right; right. split; [reflexivity|]. eexists _, _. split; [reflexivity|]. intros ->. discriminate.
   - destruct Hwf as ((c & nm & -> & Hl) & _). cbn [app]. eexists _, _. split; [reflexivity|tauto].
+  - destruct Hwf as ((c & nm & -> & Hl) & _). cbn [app]. eexists _, _. split; [reflexivity|tauto].
 Qed.
 
-Lemma lexes_item i d l pre rest : at_input d l pre (item_bytes i ++ rest) -> intag l = false -> rawtag l = 0 ->
+Lemma item_obs_noerr i : Forall (fun o => o_ty o <> ErrorT) (item_obs i).
+Proof.
+  destruct i as [t|b|b|x0 x1 x2 x3 x4 x5 x6 after|name attrs ws void|name ws|name attrs ws content ename ews|h name inner ename ews];
+    cbn [item_obs]; unfold tag_obs; repeat (constructor || apply Forall_app; try split); cbn [o_ty]; try discriminate.
+  - rewrite Forall_map. apply Forall_forall. intros [? ?|? ? ? ? ?] _; discriminate.
+  - destruct void; discriminate.
+  - rewrite Forall_map. apply Forall_forall. intros [? ?|? ? ? ? ?] _; discriminate.
+  - unfold foreign_ty. destruct (h =? html_hash_Svg); [discriminate|]. destruct (h =? html_hash_Math); discriminate.
+Qed.
+
+Lemma lexes_item i d l pre rest : at_input d l pre (item_bytes i ++ rest) -> intag l = false -> rawtag l = 0 -> lerr l = false ->
   wf_item i -> (is_text i = true -> rest = [] \/ tag_start rest) ->
   exists l', lexes d l pre (item_bytes i) rest (item_obs i) l' /\ intag l' = false /\ rawtag l' = 0.
 Proof.
-  intros Hat Hit Hraw Hwf Hnext. destruct (at_input_buflen _ _ _ _ Hat) as [Hbl Hpre0].
+  intros Hat Hit Hraw Hlerr Hwf Hnext. destruct (at_input_buflen _ _ _ _ Hat) as [Hbl Hpre0].
   pose proof (len_nonneg rest) as Hrest0.
-  destruct i as [t|b|b|x0 x1 x2 x3 x4 x5 x6 after|name attrs ws void|name ws|name attrs ws content ename ews]; cbn [item_bytes item_obs wf_item is_text] in *.
+  destruct i as [t|b|b|x0 x1 x2 x3 x4 x5 x6 after|name attrs ws void|name ws|name attrs ws content ename ews|h name inner ename ews]; cbn [item_bytes item_obs wf_item is_text] in *.
   - (* text *)
     destruct Hwf as [Hne Ht].
     destruct (next_text d l pre t rest Hat Hit Hraw Hne Ht (Hnext eq_refl)) as (l' & Hn & Htx & Hb & Hi' & Hr' & _).
@@ -744,22 +785,60 @@ Proof.
       with ([mkObs TextT content content []] ++ [mkObs EndTagT (map lower etag) (map lower ename) []]).
     eapply lexes_app; [rewrite <- (app_assoc content etag rest); exact Hl1|]. eapply lexes_app; [|exact Hlex3].
     unfold etag. cbn [app]. rewrite <- ?app_assoc. cbn [app]. exact Hl2.
+  - (* svg / math / xml *)
+    destruct Hwf as (Hn1 & Hn2 & Hh & Heh & Hxml & Hin1 & Hin2 & Helet & Hews).
+    assert (Hat' : at_input d l pre (60 :: name ++ inner ++ 60 :: 47 :: ename ++ ews ++ 62 :: rest)).
+    { cbn [app] in Hat. rewrite <- ?app_assoc in Hat. cbn [app] in Hat. rewrite <- ?app_assoc in Hat. exact Hat. }
+    destruct (next_foreign d l pre name inner ename ews rest h Hat' Hit Hraw Hlerr Hn1 Hn2 Hh Heh Hxml Hin1 Hin2 Helet Hews)
+      as (l' & Hn & Htx & Hb & Hi' & Hr' & _).
+    exists l'. split; [|tauto].
+    pose proof (len_nonneg name). pose proof (len_nonneg inner). pose proof (len_nonneg ename). pose proof (len_nonneg ews).
+    set (tl := inner ++ 60 :: 47 :: ename ++ ews ++ [62]) in *.
+    assert (Hltl : len tl = len inner + 2 + len ename + len ews + 1) by (unfold tl; rewrite len_app, !len_cons, !len_app; change (len [62]) with 1; lia).
+    assert (Hlen : len (60 :: name ++ tl) = 1 + len name + len inner + 2 + len ename + len ews + 1) by (rewrite len_cons, len_app; lia).
+    rewrite len_app in Hbl.
+    eapply lexes_one; [exact Hat|exact Hn|cbn [so sn]; lia|].
+    cbn [observe]. rewrite Htx, Hb. cbn [opt_bytes].
+    replace (foreign_ty h =? AttributeT) with false by (unfold foreign_ty; destruct (h =? html_hash_Svg); [reflexivity|]; destruct (h =? html_hash_Math); reflexivity).
+    f_equal.
+    + replace (mkSl (len pre + 1) (len name)) with (mkSl (len pre + 1) (1 + len name - 1)) by (f_equal; lia).
+      rewrite view_lower_middle by lia.
+      rewrite (at_input_view0 d l pre _ 1 Hat) by (rewrite ?len_app; lia).
+      replace (1 + len name - 1) with (len name) by lia.
+      rewrite (at_input_view d l pre _ 1 (len name) Hat) by (rewrite ?len_app; lia).
+      rewrite (at_input_view d l pre _ (1 + len name) (1 + len name + len inner + 2 + len ename + len ews + 1 - (1 + len name)) Hat) by (rewrite ?len_app; lia).
+      assert (E0 : (60 :: name ++ tl) ++ rest = [60] ++ name ++ tl ++ rest) by (cbn [app]; rewrite <- app_assoc; reflexivity).
+      rewrite E0.
+      replace (slice ([60] ++ name ++ tl ++ rest) 1 (1 + len name)) with name by (symmetry; exact (slice_mid [60] name (tl ++ rest))).
+      replace (slice ([60] ++ name ++ tl ++ rest) 0 1) with [60] by (symmetry; exact (slice_first [60] (name ++ tl ++ rest))).
+      replace (slice ([60] ++ name ++ tl ++ rest) (1 + len name) (1 + len name + (1 + len name + len inner + 2 + len ename + len ews + 1 - (1 + len name)))) with tl.
+      * reflexivity.
+      * symmetry. replace ([60] ++ name ++ tl ++ rest) with (([60] ++ name) ++ tl ++ rest) by (rewrite <- app_assoc; reflexivity).
+        replace (1 + len name) with (len ([60] ++ name)) by (rewrite len_app; change (len [60]) with 1; lia).
+        replace (len ([60] ++ name) + len inner + 2 + len ename + len ews + 1 - len ([60] ++ name)) with (len tl) by lia.
+        apply slice_mid.
+    + rewrite view_bytes_lower_view by (cbn [so sn]; lia).
+      rewrite (at_input_view d l pre _ 1 (len name) Hat) by (rewrite ?len_app; lia). f_equal.
+      replace ((60 :: name ++ tl) ++ rest) with ([60] ++ name ++ tl ++ rest) by (cbn [app]; rewrite <- app_assoc; reflexivity).
+      exact (slice_mid [60] name (tl ++ rest)).
 Qed.
 
 (* ---- documents ------------------------------------------------------------------------------------------------------------- *)
-Lemma lexes_doc items : forall d l pre, at_input d l pre (doc_bytes items) -> intag l = false -> rawtag l = 0 -> wf_doc items ->
+Lemma lexes_doc items : forall d l pre, at_input d l pre (doc_bytes items) -> intag l = false -> rawtag l = 0 -> lerr l = false -> wf_doc items ->
   exists l', lexes d l pre (doc_bytes items) [] (doc_obs items) l' /\ intag l' = false /\ rawtag l' = 0.
 Proof.
-  induction items as [|i items IH]; intros d l pre Hat Hit Hraw Hwf.
+  induction items as [|i items IH]; intros d l pre Hat Hit Hraw Hlerr Hwf.
   - exists l. split; [apply lexes_nil; exact Hat|tauto].
   - cbn [wf_doc] in Hwf. destruct Hwf as (Hi & Hnt & Hrest).
     unfold doc_bytes, doc_obs in *. cbn [map concat] in *. fold (doc_bytes items) in *. fold (doc_obs items) in *.
     assert (Hfollow : is_text i = true -> doc_bytes items = [] \/ tag_start (doc_bytes items)).
     { intros Ht. specialize (Hnt Ht). destruct items as [|j items']; [left; reflexivity|right].
       cbn [wf_doc] in Hrest. destruct Hrest as (Hj & _). unfold doc_bytes. cbn [map concat]. apply nontext_tag_start; assumption. }
-    destruct (lexes_item i d l pre (doc_bytes items) Hat Hit Hraw Hi Hfollow) as (l1 & Hl1 & Hi1 & Hr1).
+    destruct (lexes_item i d l pre (doc_bytes items) Hat Hit Hraw Hlerr Hi Hfollow) as (l1 & Hl1 & Hi1 & Hr1).
     assert (Hat1 : at_input d l1 (pre ++ item_bytes i) (doc_bytes items)) by (destruct Hl1 as (tr & _ & _ & _ & A); exact A).
-    destruct (IH d l1 (pre ++ item_bytes i) Hat1 Hi1 Hr1 Hrest) as (l2 & Hl2 & Hi2 & Hr2).
+    assert (Hlerr1 : lerr l1 = false).
+    { rewrite (lexes_lerr _ _ _ _ _ _ _ (proj1 (proj1 Hat)) Hl1 (item_obs_noerr i)). exact Hlerr. }
+    destruct (IH d l1 (pre ++ item_bytes i) Hat1 Hi1 Hr1 Hlerr1 Hrest) as (l2 & Hl2 & Hi2 & Hr2).
     exists l2. split; [|tauto]. eapply lexes_app; [|exact Hl2]. rewrite app_nil_r. exact Hl1.
 Qed.
 
@@ -771,7 +850,7 @@ Lemma html_wellformed_tokens_proof : forall items, wf_doc items ->
              map observe tr = doc_obs items ++ [mkObs ErrorT [] [] []].
 Proof.
   intros items Hwf. set (d := doc_bytes items).
-  destruct (lexes_doc items d (new_lexer d) [] (at_input_init d) eq_refl eq_refl Hwf) as (l' & (tr & Hr & Ho & Hf & Hat) & Hi & Hraw).
+  destruct (lexes_doc items d (new_lexer d) [] (at_input_init d) eq_refl eq_refl eq_refl Hwf) as (l' & (tr & Hr & Ho & Hf & Hat) & Hi & Hraw).
   cbn [app] in Hat. destruct Hat as (Hinv & Hcl & Hd & Hp). rewrite app_nil_r in Hd. subst d. clear Hd.
   destruct (html_eof_sticky_step_proof no_tmpl _ l' cfg_ok_no_tmpl Hinv Hp) as (l2 & Hn2 & Hinv2 & Hp2 & _).
   exists (tr ++ [(ErrorT, None, l2)]). rewrite run_app, Hr. cbn [rbind]. rewrite Hf. cbn [run]. rewrite Hn2. cbn [rbind].
@@ -784,17 +863,19 @@ Proof.
   unfold view_bytes, slice, firstz. replace (so t + sn t - so t) with 0 by lia. reflexivity.
 Qed.
 
-(* non-vacuity: <!DOCTYPE html><a B='c' d>x</A ><STYLE>p<q</style > *)
+(* non-vacuity: <!DOCTYPE html><a B='c' d>x</A ><STYLE>p<q</style ><svg><g/></SVG > *)
 Example html_wellformed_nonvacuous :
   let doc := [ IDoctype 68 79 67 84 89 80 69 [32; 104; 116; 109; 108];
                ITag [97] [AVal [32] [66] [] [] [39; 99; 39]; ANone [32] [100]] [] false;
                IText [120];
                IEnd [65] [32];
-               IRaw [83; 84; 89; 76; 69] [] [] [112; 60; 113] [115; 116; 121; 108; 101] [32] ] in
+               IRaw [83; 84; 89; 76; 69] [] [] [112; 60; 113] [115; 116; 121; 108; 101] [32];
+               IForeign html_hash_Svg [115; 118; 103] [62; 60; 103; 47; 62] [83; 86; 71] [32] ] in
   wf_doc doc /\
   doc_bytes doc = [60;33;68;79;67;84;89;80;69;32;104;116;109;108;62;60;97;32;66;61;39;99;39;32;100;62;120;60;47;65;32;62;
-                   60;83;84;89;76;69;62;112;60;113;60;47;115;116;121;108;101;32;62] /\
-  length (doc_obs doc) = 11%nat.
+                   60;83;84;89;76;69;62;112;60;113;60;47;115;116;121;108;101;32;62;
+                   60;115;118;103;62;60;103;47;62;60;47;83;86;71;32;62] /\
+  length (doc_obs doc) = 12%nat.
 Proof.
   split; [|split; reflexivity]. cbn [wf_doc wf_item is_text]. repeat split; try discriminate; try reflexivity.
   all: try (repeat constructor; unfold ci_eq; lia).
@@ -807,4 +888,8 @@ Proof.
   - intros k Hk Hk1. destruct (Z.eq_dec k 1) as [->|Hne]; [vm_compute in Hk1; discriminate|].
     assert (0 <= k < 3) by (apply peekz_some in Hk; exact Hk).
     assert (k = 0 \/ k = 2) as [-> | -> ] by lia; vm_compute in Hk; discriminate.
+  - exists 62, [60; 103; 47; 62]. split; [reflexivity|tauto].
+  - intros k Hk Hk1. destruct (Z.eq_dec k 1) as [->|Hne]; [vm_compute in Hk1; discriminate|].
+    assert (0 <= k < 5) by (apply peekz_some in Hk; exact Hk).
+    assert (k = 0 \/ k = 2 \/ k = 3 \/ k = 4) as [-> | [-> | [-> | -> ]]] by lia; vm_compute in Hk; discriminate.
 Qed.
